@@ -181,8 +181,17 @@ func (k c03) Run(c *rt.Ctx) {
 			w = gen.Or(gen.Bin("^=", gen.Value(), gen.Str("a")), right)
 		}
 		stmt = &gen.Stmt{Kind: "select", Where: w, Fields: []gen.Field{{E: gen.Key()}, {E: gen.Call("upper", gen.Value()), Alias: "u"}}}
+		if r.Bool() {
+			// a second field defined through the first, shown and used by the filter as well
+			wdef := gen.Bin("+", u, gen.Str("!"))
+			stmt.Fields = append(stmt.Fields, gen.Field{E: wdef, Alias: "w"})
+			stmt.Where = gen.And(w, gen.Bin(">", gen.Call("strlen", gen.Ref("w", wdef)), gen.Int(2)))
+		}
 		query = stmt.Text(gen.Plain)
 		sizes = []int{1, 2, 3}
+		if r.Bool() {
+			sizes = []int{2, 3, 5}
+		}
 	}
 	hit := k.judge(c, stmt, query, st.Pairs, sizes, "")
 	if hit == "" {
